@@ -54,7 +54,9 @@ def json_str(d):
 
 CHECK = {
     "lean_modules": ["P3R.Props.C04", "P3R.Props.C04Full", "P3R.Props.C04Packed", "P3R.Witness.C04", "P3R.Props.C11P",
-                     "P3R.Props.C04Gen", "P3R.Props.C10Gen", "P3R.Witness.C04Gen"],
+                     "P3R.Props.C04Gen", "P3R.Props.C10Gen", "P3R.Witness.C04Gen",
+                     "P3R.Props.C04Sched", "P3R.Witness.C04Sched",
+                     "P3R.Props.C04SchedBus", "P3R.Witness.C04SchedBus"],
     "theorems": ["P3R.C04.readers_agree", "P3R.C04.row_sat_add", "P3R.C04.row_sat_mul", "P3R.C04.row_sat_bool",
                  "P3R.C04.row_sat_muladd", "P3R.C04.row_sat_horner", "P3R.C04.accepted_alu_sat_partial", "P3R.C04.const_not_bound",
                  # composition: balanced bus + single creator (C09) + row constraints on cells => a satisfying assignment exists
@@ -77,19 +79,33 @@ CHECK = {
                  "P3R.Witness.C04Gen.accepted_sat_gen_nonvacuous", "P3R.Witness.C04Gen.mul_relation_in_L",
                  "P3R.Witness.C04Gen.rows_tampered_rejected", "P3R.Witness.C04Gen.bool_higher_coeff_rejected",
                  "P3R.Witness.C04Gen.g_irreducible", "P3R.Witness.C04Gen.sat_cvW", "P3R.Witness.C04Gen.honest_rows_gen_nonvacuous",
+                 # the SCHEDULED table as committed (Props/C04Sched): concrete scheduled preprocessed matrix (prepRow = scheduledPrepRows),
+                 # arbitrary main trace, window constraints of aluConstraints + balanced tuple bus => Sat; every D, lanes, K_max
+                 "P3R.C04.scheduledPrepRows_getD", "P3R.C04.prepRow_lane", "P3R.C04.prepRow_extra",
+                 "P3R.C04.entryCols_packed_sel", "P3R.C04.entryCols_packed_selK",
+                 "P3R.C04.sched_add", "P3R.C04.sched_mul", "P3R.C04.sched_mulAdd", "P3R.C04.sched_bool",
+                 "P3R.C04.sched_sep_zero", "P3R.C04.sched_horner_single", "P3R.C04.sched_packed",
+                 "P3R.C04.chained_alu", "P3R.C04.ev_chainCells", "P3R.C04.prev_out_acc",
+                 "P3R.C04.sched_rows_sat", "P3R.C04.scheduled_accepted_sat",
+                 "P3R.Witness.C04Sched.sched_eq", "P3R.Witness.C04Sched.win_ok", "P3R.Witness.C04Sched.win_tampered_rejected",
+                 "P3R.Witness.C04Sched.wf_ok", "P3R.Witness.C04Sched.cells_ok", "P3R.Witness.C04Sched.sched_rows_sat_nonvacuous",
+                 # bus of the scheduled table in packed form (one b tuple with summed multiplicity, silent intermediates) == unpacked cells' bus
+                 "P3R.C04.tupleNet_busOf", "P3R.C04.step_all_net", "P3R.C04.schedBus_equiv",
+                 "P3R.C04.scheduled_accepted_sat_bus", "P3R.C04.scheduled_accepted_sat_D1",
+                 "P3R.Witness.C04Sched.bus_ok", "P3R.Witness.C04Sched.creators_ok", "P3R.Witness.C04Sched.scheduled_accepted_sat_nonvacuous",
                  # non-primitive rows (control part of the Poseidon circuit tables): what an accepted window implies about chaining,
                  # Merkle placement and the index accumulator, and what it leaves free (the known findings F-C08-5*, F-C11-P1)
                  "P3R.C11P.spongeChain_iff", "P3R.C11P.merklePlace_iff", "P3R.C11P.arity4Place_iff", "P3R.C11P.generic_window_iff",
                  "P3R.C11P.accChain2_iff", "P3R.C11P.accChain4_iff", "P3R.C11P.generic_chain_start_free", "P3R.C11P.compact_start_iff"],
     "run": c04_run,
     "trusted_base": ["ideal STARK/LogUp: an accepted proof implies row constraints hold on some committed trace and the WitnessChecks bus is balanced as a signed multiset (DESIGN §2)"],
-    "assumptions": ["the Lean composition theorem holds for every extension degree D >= 1 (accepted_sat_gen: cells in the base field, D per operand, bus tuples (slot, v_0..v_{D-1}), coefficient-wise row constraints, relations in the extension ring L generated by a root alpha of the ALU's multiplication kind — KindRoot; accepted_sat is its D = 1 instance, accepted_sat_of_gen); it speaks about single-step Horner rows of the unscheduled abstract trace — packed arities enter through the unpacking argument (C11.packed_window_sound_gen for every D and arity, packed_tuple_net_gen, accepted_sat_gen_bus_equiv), whose list-level glue from a concrete scheduled matrix is not one theorem; the row selector is one non-zero value `sel` (one-hot selectors of the preprocessed trace; window_lane_blocks ties the constraint vectors to aluConstraints); accepted_sat(_gen) assumes no ALU operand is off the bus (role `skip`; 0 of 36k generated rows in the C09 run) and that a Const row's cells denote the circuit's constant (false today: finding F4); the permutation rounds of the Poseidon tables are uninterpreted (control part modelled in Model/PoseidonCtl, tied by C11's run); recompose rows carry no constraint (F5b)"],
+    "assumptions": ["the Lean composition theorem holds for every extension degree D >= 1 (accepted_sat_gen: cells in the base field, D per operand, bus tuples (slot, v_0..v_{D-1}), coefficient-wise row constraints, relations in the extension ring L generated by a root alpha of the ALU's multiplication kind — KindRoot; accepted_sat is its D = 1 instance, accepted_sat_of_gen); accepted_sat(_gen) speaks about single-step Horner rows of the unscheduled abstract trace; the SCHEDULED table is covered by scheduled_accepted_sat_bus (Props/C04Sched, C04SchedBus): for sched = computeSchedule preps lanes kmax, the concrete preprocessed matrix prepRow = scheduledPrepRows (zero rows up to height H), ANY main-trace row function, (a) all of aluConstraints D lanes kmax kind vanishing on every window (r, r+1 mod H) and (b) the packed bus schedBus (other tables' cells + per scheduled entry what the table declares: packed rows send ONE b tuple with the summed multiplicity and nothing for the silent intermediate outputs) balanced as a signed multiset of D-tuples imply an assignment in the extension ring satisfying every op (single ops in every lane, chain starts after a separator via the F22 constraint, packed rows of every arity via C11.packed_window_sound_gen at ring level, cover by C11.computeSchedule_cover, bus by packed_tuple_net_gen + bus_single_valued_gen); its explicit hypotheses that are NOT derived: the lane-0 discipline SchedWF of the schedule (Horner entries only on lane 0 below row 0, predecessor = previous chain entry or separator, packed arity in 2..K_max — true of compute_schedule by construction, checked by `decide` on the witness, not yet proved for every op list from computeSchedule), the selector columns of op j encode its kind (PrepSel, = the 12->13 column conversion of common.rs), the integer-level reading hpk of the scheduler's two tests (equal b slot, intermediate out multiplicity 0; the K-valued columns b_idx / mult_out agree with it when slot indices and read counts stay below the characteristic), multiplicities are integers (the field-valued multiplicity columns of aluInteractions are their images), at most one creator per slot over the unpacked cells (C09.one_creator up to the schedule's permutation), MUL_ADD / HORNER ops carry a c operand; the row selector is one non-zero value `sel` (one-hot selectors of the preprocessed trace; window_lane_blocks ties the constraint vectors to aluConstraints); accepted_sat(_gen) assumes no ALU operand is off the bus (role `skip`; 0 of 36k generated rows in the C09 run) and that a Const row's cells denote the circuit's constant (false today: finding F4); the permutation rounds of the Poseidon tables are uninterpreted (control part modelled in Model/PoseidonCtl, tied by C11's run); recompose rows carry no constraint (F5b)"],
 }
 
 MANIFEST_ENTRY = {
     "property_id": "C04", "quick_cmd": "bin/check C04 --tier quick", "thorough_cmd": "bin/check C04 --tier thorough",
     "evidence_file": "evidence/C04.json", "replay_cmd_template": "bin/check C04 --replay {path}", "engine": "lean-models",
     "technique": "Lean 4 proof that balanced bus + vanishing row constraints imply the op relations (partial: constants, Horner) + forged-trace prove/verify",
-    "level_claimed": {"category": "proof", "text": "accepted_sat: a balanced WitnessChecks bus over the roles of the role scan (single creator proved in C09) together with vanishing row constraints (ADD/MUL/BOOL/MUL_ADD/single-step HORNER) yields an assignment satisfying every op relation — proved for every circuit and trace, with readers_agree / bus_single_valued / row_sat_* as steps; accepted_sat_gen: the same for every extension degree D >= 1 (D coefficient cells per operand, D-tuples on the bus, coefficient-wise constraints with the binomial / quintic / base product, relations in the extension ring; D = 2 witness over F_49), accepted_sat being its D = 1 instance (accepted_sat_of_gen); converse run_honest_accepted_gen under power-basis independence; const_not_bound proves the acceptance conditions do not bind constants (finding F4, replayed on the real prover every run); forged traces through the real prover judged by an independent sat check.", "design_ref": "4/C04"},
+    "level_claimed": {"category": "proof", "text": "accepted_sat: a balanced WitnessChecks bus over the roles of the role scan (single creator proved in C09) together with vanishing row constraints (ADD/MUL/BOOL/MUL_ADD/single-step HORNER) yields an assignment satisfying every op relation — proved for every circuit and trace, with readers_agree / bus_single_valued / row_sat_* as steps; accepted_sat_gen: the same for every extension degree D >= 1 (D coefficient cells per operand, D-tuples on the bus, coefficient-wise constraints with the binomial / quintic / base product, relations in the extension ring; D = 2 witness over F_49), accepted_sat being its D = 1 instance (accepted_sat_of_gen); scheduled_accepted_sat_bus: the same conclusion from the two acceptance conditions stated on the concrete scheduled, multi-lane, packed matrix (window constraints of aluConstraints against scheduledPrepRows of computeSchedule + balanced packed tuple bus), every D / lane count / K_max, non-vacuous on a packed chain at lanes = 2 (Witness/C04SchedBus); converse run_honest_accepted_gen under power-basis independence; const_not_bound proves the acceptance conditions do not bind constants (finding F4, replayed on the real prover every run); forged traces through the real prover judged by an independent sat check.", "design_ref": "4/C04"},
     "level_note": "cryptographic soundness assumed ideal; constants (F4) and the arity-2 Merkle mode / unfed start limbs of the Poseidon tables (F-C08-5*, F-C11-P1) are known findings; permutation rounds uninterpreted",
 }
